@@ -120,7 +120,7 @@ def eval_list(kind, items):
 
 
 # ---- P: value grid ----------------------------------------------------------------------------
-SIZE_VALUES = [0, 1, 1.0, 1.005, 33.333]
+SIZE_VALUES = [0, 1, 1.0, 1.005, 33.333, 0.3, 0.1 + 0.2, 100 / 3, 33.33333333333333]
 
 
 def grid_specs():
